@@ -4,6 +4,8 @@ passes the unedited suite) to /repo in turn, run EVERY check's quick tier, undo 
 of these demands more than its property. Results: seeded/benign/RESULTS.md."""
 import os, re, subprocess, sys, time
 ROOT = "/verif"
+# PV_BENIGN_CHECKS=C01,C02,...  restricts the run to these checks and writes RESULTS-subset.md instead of RESULTS.md
+ONLY = [c for c in os.environ.get("PV_BENIGN_CHECKS", "").split(",") if c]
 assert subprocess.run(["git", "-C", "/repo", "diff", "--quiet"]).returncode == 0, "/repo has uncommitted changes"
 rows = []
 for f in sorted(os.listdir(f"{ROOT}/seeded/benign")):
@@ -14,6 +16,8 @@ for f in sorted(os.listdir(f"{ROOT}/seeded/benign")):
     try:
         for i in range(1, 21):
             cid = "C%02d" % i
+            if ONLY and cid not in ONLY:
+                continue
             t0 = time.time()
             r = subprocess.run([f"{ROOT}/check", cid, "quick"], cwd=ROOT, capture_output=True, text=True, timeout=3600)
             out = r.stdout + r.stderr
@@ -28,7 +32,7 @@ for f in sorted(os.listdir(f"{ROOT}/seeded/benign")):
         subprocess.run(["git", "-C", "/repo", "checkout", "--", "."], check=True)
         subprocess.run(["git", "-C", ROOT, "clean", "-fdq", "replays/"])
 subprocess.run(["git", "-C", ROOT, "checkout", "--", "evidence/"])
-with open(f"{ROOT}/seeded/benign/RESULTS.md", "w") as fh:
+with open(f"{ROOT}/seeded/benign/" + ("RESULTS-subset.md" if ONLY else "RESULTS.md"), "w") as fh:
     fh.write("| behaviour-preserving change | checks silent | checks that raised an alarm |\n|---|---|---|\n")
     for f in sorted(set(r[0] for r in rows)):
         mine = [r for r in rows if r[0] == f]
